@@ -17,7 +17,7 @@ class C05(CollProperty):
     quick_budget_s = 150
     thorough_budget_s = 900
     shapes = [s for s in coll.SHAPES if s not in ("TS", "TSStr", "SIGNAL")]
-    rule = ("seeded mutation histories over TSS, TSD (incl. TSD<TSB>, TSD<TSD>, TSD<TSS>, TSD<Str,TSL>, TSD<TSW>), TSL, TSL<TSS>, TSB, TSB{TS,TSS}, TSB{TS,TSL}, TSB{TS,TSB}, TSW with Int and "
+    rule = ("seeded mutation histories over TSS, TSD (incl. TSD<TSB>, TSD<TSD>, TSD<TSS>, TSD<Str,TSL>, TSD<TSW>, TSD<TSB{TS,TSS}>), TSL, TSL<TSS>, TSB, TSB{TS,TSS}, TSB{TS,TSL}, TSB{TS,TSB}, TSB{TS,TSW}, TSL<TSB>, TSW with Int and "
             "Str elements, written both through canonical deltas and through the authoring mutators; biased to add+remove of one new element in a "
             "cycle, remove+re-add of an existing one, update then remove, clear, several mutations of one element per cycle, key pools of 4/6/70 so "
             "that slot stores grow across capacity boundaries and reuse slots. Each output is read by a consumer on every tick (value, added, removed, "
